@@ -1,4 +1,5 @@
 """C05 - `wormhole receive` writes only where it said it would, and never clobbers."""
+import hashlib
 import io
 import os
 import sys
@@ -122,6 +123,9 @@ def cases(tier, seed, prep=None):
                                 "accept": False, "answer": ans, "pre": ["absent", "dir", "file"][k % 3],
                                 "members": pick_members(rng) if kind == "directory" else []})
                     k += 1
+    # several receives in one process with one shared configuration object
+    for i in range(30 if tier == "quick" else 800):
+        out.append({"seed": seed * 1000003 + 590000 + i, "series": True, "n": 2 + i % 2, "out": [None, "inbox", "inbox"][i % 3]})
     # the user already has a file called <destination>.tmp next to where the destination will be
     for i in range(60 if tier == "quick" else 2000):
         kind = "file" if i % 3 != 2 else "directory"
@@ -229,11 +233,67 @@ def evil_sender(world, code, offer, payload, log, hangup=None):
             pass
 
 
+def _run_series(spec, world, base):
+    """several receives one after another in one process, all driven by the SAME configuration object (what a
+    program that embeds cmd_receive.receive() in a loop does): each file must land where its own offer says"""
+    rng = world.work_rng
+    r = world.reactor
+    cwd = os.path.join(base, "case", "cwd")
+    os.makedirs(os.path.join(cwd, "inbox"))
+    with open(os.path.join(cwd, "inbox", "keep.txt"), "wb") as f:
+        f.write(b"keep")
+    with open(os.path.join(cwd, "other.txt"), "wb") as f:
+        f.write(b"other")
+    out = spec["out"]
+    ra = mkargs(output_file=out, accept_file=True)
+    ra.cwd = cwd
+    names = rng.sample(["first.txt", "second.bin", "third", "ünï.dat", "a b.txt"], spec["n"])
+    want = {}
+    viol = []
+    outcomes = []
+    for i, nm in enumerate(names):
+        payload = rng.randbytes(rng.choice([1, 100, 20000]))
+        code = "%d-series-%d" % (rng.randint(1, 900), i)
+        ra.code = code
+        ra.stdout, ra.stderr = io.StringIO(), io.StringIO()
+        elog = []
+        rr = Result(cmd_receive.Receiver(ra, r).go())
+        rs = Result(evil_sender(world, code, {"file": {"filename": nm, "filesize": len(payload)}}, payload, elog))
+        sch = Scheduler(world, None, strategy=rng.choice(["random", "netfirst"]), chunking="whole")
+        sch.run(20000, until=lambda: rr.done and rs.done)
+        if not (rr.done and rs.done):
+            sch.drain(300.0, 30000, until=lambda: rr.done and rs.done)
+        outcomes.append(outcome(rr))
+        if outcome(rr) == "success":
+            dest = os.path.join("inbox", nm) if out == "inbox" else nm
+            want[dest] = payload
+        if out is not None and out != "inbox":
+            break         # --output-file names one file: a second receive into it is a different question
+    after = snapshot(cwd)
+    wit = {"spec": spec, "names": names, "outcomes": outcomes, "tree": {k: v[:2] for k, v in after.items()}}
+    for dest, payload in want.items():
+        got = after.get(dest)
+        if got is None or got[0] != "file" or got[1] != len(payload) or got[2] != hashlib.sha256(payload).hexdigest():
+            viol.append({"key": "C05/series/file-not-at-its-own-destination", "msg": "receive %d of %d reported success for %r, but %r is %r" % (
+                list(want).index(dest) + 1, len(names), os.path.basename(dest), dest, got and got[:2]), "witness": wit})
+            break
+    for k in ("inbox/keep.txt", "other.txt"):
+        if after.get(k, (None,))[0] != "file" or after[k][1] != {"inbox/keep.txt": 4, "other.txt": 5}[k]:
+            viol.append({"key": "C05/existing-file-clobbered", "msg": "%r changed during a series of receives: %r" % (k, after.get(k)), "witness": wit})
+    extra = sorted(set(after) - set(want) - {"inbox", "inbox/keep.txt", "other.txt"})
+    if extra:
+        viol.append({"key": "C05/series/unexpected-entry", "msg": "after the series the directory also holds %r" % extra[:5], "witness": wit})
+    return {"violations": viol, "nontrivial": ["series", spec["seed"], out, names], "counters": {"series_receives": len(outcomes), "transfers_completed": outcomes.count("success")},
+            "sample": {"spec": spec, "outcomes": outcomes}}
+
+
 def run_case(spec):
     install_hook()
     world = World(spec["seed"])
     base = os.path.realpath(new_sandbox("vt-c05-"))
     try:
+        if spec.get("series"):
+            return _run_series(spec, world, base)
         return _run(spec, world, base)
     finally:
         _AUDIT["root"] = None
